@@ -277,3 +277,90 @@ pub fn rand_doc(rng: &mut Rng, s: &Schema, o: &DocOpts) -> Vec<Node> {
 pub fn s3() -> Schema {
     Schema::parse("A:master=0x81, A/B:master=0x82, A/B/C:master=0x83, A/B/C/U:uint=0x84, A/B/C/I:int=0x85, A/B/C/F:float=0x86, A/B/C/S:utf8=0x87, A/B/C/X:bin=0x88, A/P:uint=0x89, A/B/Q:uint=0x8a, R2:master=0x8b, (-)/G:bin=0xec")
 }
+
+// ---------------------------------------------------------------- unknown-size encodings (C07)
+/// e directly ends the unknown-size master m: root element, same declared path, or the id of an ancestor of m
+pub fn ends_directly(s: &Schema, m: u64, e: u64) -> bool {
+    let (Some(me), Some(ee)) = (s.get(m), s.get(e)) else { return false; };
+    ee.path.is_empty() || ee.path == me.path || me.path.iter().any(|p| matches!(p, PathPart::Id(i) if *i == e))
+}
+pub struct FlatNode { pub id: u64, pub parent: Option<usize>, pub size: usize, pub is_master: bool, pub path: Vec<usize> }
+pub fn flat_index(doc: &[Node]) -> Vec<FlatNode> {
+    fn walk(n: &Node, parent: Option<usize>, path: Vec<usize>, acc: &mut Vec<FlatNode>) {
+        let me = acc.len();
+        acc.push(FlatNode { id: n.id, parent, size: n.count(), is_master: n.is_master(), path: path.clone() });
+        for (i, k) in n.kids.iter().enumerate() { let mut p = path.clone(); p.push(i); walk(k, Some(me), p, acc); }
+    }
+    let mut acc = Vec::new();
+    for (i, n) in doc.iter().enumerate() { walk(n, None, vec![i], &mut acc); }
+    acc
+}
+pub fn node_mut<'a>(doc: &'a mut [Node], path: &[usize]) -> &'a mut Node {
+    let mut n = &mut doc[path[0]];
+    for &i in &path[1..] { n = &mut n.kids[i]; }
+    n
+}
+/// Sets `unk` on the masters selected by `want` (indexed like flat_index), keeping only those for
+/// which EBML determines the end unambiguously: end of document, exhaustion of an enclosing
+/// known-size master, or a following element that ends exactly the right unknown-size masters.
+/// Returns the number of masters finally marked.
+pub fn assign_unknown(doc: &mut Vec<Node>, s: &Schema, want: &[bool]) -> usize {
+    let flat = flat_index(doc);
+    let mut unk: Vec<bool> = (0..flat.len()).map(|i| flat[i].is_master && want[i]).collect();
+    let ancestors = |i: usize| -> Vec<usize> { let mut v = Vec::new(); let mut p = flat[i].parent; while let Some(x) = p { v.push(x); p = flat[x].parent; } v };
+    loop {
+        let mut changed = false;
+        for i in 0..flat.len() {
+            if !unk[i] { continue; }
+            // nothing inside M may itself look like an element that ends M (recursive / global masters)
+            if (i + 1..i + flat[i].size).any(|d| ends_directly(s, flat[i].id, flat[d].id)) { unk[i] = false; changed = true; continue; }
+            let nxt = i + flat[i].size;
+            if nxt >= flat.len() { continue; } // end of document closes everything
+            let anc_m = ancestors(i);
+            let anc_n = ancestors(nxt);
+            // ancestors of M that end together with M (not ancestors of the next element), innermost first
+            let ending: Vec<usize> = anc_m.iter().copied().filter(|a| !anc_n.contains(a)).collect();
+            if ending.iter().any(|a| !unk[*a]) { continue; } // a known-size master is exhausted first
+            // all of M and `ending` are unknown: the next element must end exactly them
+            let mut run: Vec<usize> = vec![i]; run.extend(ending.iter().copied());
+            let outer: Vec<usize> = anc_m.iter().copied().filter(|a| anc_n.contains(a)).collect();
+            let mut run_ext = run.clone();
+            for a in &outer { if unk[*a] { run_ext.push(*a); } else { break; } }
+            // lowest (outermost) directly-ended master of the top run must be the outermost of `run`
+            let hit = run_ext.iter().rposition(|x| ends_directly(s, flat[*x].id, flat[nxt].id));
+            let ok = matches!(hit, Some(h) if h == run.len() - 1);
+            if !ok { unk[i] = false; changed = true; }
+        }
+        if !changed { break; }
+    }
+    for i in 0..flat.len() { node_mut(doc, &flat[i].path).unk = unk[i]; }
+    unk.iter().filter(|x| **x).count()
+}
+pub fn clear_unknown(doc: &mut Vec<Node>) { fn w(n: &mut Node) { n.unk = false; for k in n.kids.iter_mut() { w(k); } } for n in doc.iter_mut() { w(n); } }
+
+// ---------------------------------------------------------------- layout of an encoded document
+#[derive(Clone, Debug)]
+pub struct Lay { pub id: u64, pub off: usize, pub hlen: usize, pub size: usize, pub is_master: bool, pub unk: bool, pub depth: usize, pub parent: Option<usize> }
+/// offsets of every tag in document order (same indexing as flat_index)
+pub fn layout(doc: &[Node]) -> Vec<Lay> {
+    fn walk(n: &Node, off: usize, depth: usize, parent: Option<usize>, acc: &mut Vec<Lay>) -> usize {
+        let mut me = Vec::new(); encode(n, &mut me);
+        let idl = id_bytes(n.id).len();
+        let me_idx = acc.len();
+        if n.is_master() {
+            let mut body = Vec::new(); for k in &n.kids { encode(k, &mut body); }
+            let hlen = me.len() - body.len();
+            acc.push(Lay { id: n.id, off, hlen, size: body.len(), is_master: true, unk: n.unk, depth, parent });
+            let mut o = off + hlen;
+            for k in &n.kids { o = walk(k, o, depth + 1, Some(me_idx), acc); }
+        } else {
+            let p = payload(n);
+            acc.push(Lay { id: n.id, off, hlen: me.len() - p.len(), size: p.len(), is_master: false, unk: false, depth, parent });
+            let _ = idl;
+        }
+        off + me.len()
+    }
+    let mut acc = Vec::new(); let mut off = 0;
+    for n in doc { off = walk(n, off, 0, None, &mut acc); }
+    acc
+}
